@@ -710,8 +710,19 @@ func ruleC07Rec(c *Ctx, r *Result) {
 		}
 		if len(bad) > 0 {
 			// one finding per strongly connected component: a single visited set / level test repairs all of its edges
-			r.Viol("C07.3", fmt.Sprintf("scc(%s)#recursion-without-progress#edges=%d", c.Name(comp[0]), len(bad)), badPos,
-				"call-graph cycle driven by file content with no insert-only visited set, no decreasing level and no shrinking argument on: "+strings.Join(bad, "; "))
+			// a component that gained a function after the review: the measure may sit on an edge the rule does not connect
+			var newcomer *ssa.Function
+			for _, f := range comp {
+				if h := c.postReviewContext(f); h != "" && h == c.Name(f) {
+					newcomer = f
+				}
+			}
+			msg := "call-graph cycle driven by file content with no insert-only visited set, no decreasing level and no shrinking argument on: " + strings.Join(bad, "; ")
+			if newcomer != nil {
+				r.ViolMissing(c, newcomer, "C07.3", fmt.Sprintf("scc(%s)#recursion-without-progress#edges=%d", c.Name(comp[0]), len(bad)), badPos, msg)
+			} else {
+				r.Viol("C07.3", fmt.Sprintf("scc(%s)#recursion-without-progress#edges=%d", c.Name(comp[0]), len(bad)), badPos, msg)
+			}
 		}
 	}
 	// worklists: loops that take from a slice and append file-derived entries to it
